@@ -22,6 +22,26 @@ NEEDS = {
  'C18-a': ('C18', 'Square::left/right on the a-/h-file wrap to the neighbouring rank instead of failing'),
  'C19-a': ('C19', 'Black to move, king on h8, white pawn on g7: check not seen (two cooperating sites: table range excludes H8, new table lookup for pawn attackers)'),
  'C20-a': ('C20', 'one colour holds exactly one castling right: render header names the other wing'),
+ 'C01-b': ('C01', 'en passant available, captured pawn is the sole blocker on a DIAGONAL between the mover\'s king and an enemy bishop/queen, king not on the pawns\' rank, not in check, capturing pawn not pinned (FEN/setup position): illegal capture listed as legal'),
+ 'C02-b': ('C02', 'castling moves neither increment nor reset the half-move clock (clock update moved into the piece-move arm)'),
+ 'C03-b': ('C03', 'side to move not in check and every legal move belongs to a pinned piece: terminal flag wrongly set, is_legal_move rejects all moves that get_legal_moves lists'),
+ 'C04-b': ('C04', 'terminal position (stalemate/mate) in which each side has a lone king or king + one minor: reported as insufficient-material draw (precedence swapped)'),
+ 'C05-b': ('C05', 'between-table entry of the pair a1-h8 wrong (step rule ambiguous for difference 63): king on a1/h8 with enemy bishop/queen on the opposite corner'),
+ 'C06-b': ('C06', 'shared legality fast path narrowed for en passant: capture uncovering a diagonal attack accepted, side that just moved left in check (FEN/setup start)'),
+ 'C07-b': ('C07', 'promotion onto an EMPTY square hashes the pawn key instead of the promoted piece key (quiet-move fast path in move_piece)'),
+ 'C08-b': ('C08', 'en-passant capture played in the history: victim removed from the masks without its hash key, so from_fen(as_fen) has another hash'),
+ 'C09-b': ('C09', 'both castling rights granted, king and h-rook at home, no rook on a1/a8: accepted (else-if in the required-rook mask)'),
+ 'C10-b': ('C10', 'exactly two kings, both of one colour, kingless side to move: from_fen panics before validation'),
+ 'C11-b': ('C11', 'castling key rows of White and Black identical ([expr; N] copies): positions differing only in symmetric rights share a counter slot'),
+ 'C12-b': ('C12', 'game constructed from an already finished start position keeps the default Result tag `?`'),
+ 'C13-b': ('C13', 'castling that gives check or mate recorded with check/mate flags false (early return for castling in MovePropertiesOnBoard::new)'),
+ 'C14-b': ('C14', 'side to move has exactly one pawn and it captures: origin file omitted (`xd5`)'),
+ 'C15-b': ('C15', 'export wraps with textwrap::fill defaults: a castling token crossing column 85 is split at its hyphen, export not re-importable'),
+ 'C16-b': ('C16', 'printer drops the promotion suffix of non-pawn moves (102,400 of 147,458 values)'),
+ 'C17-b': ('C17', '(pending)'),
+ 'C18-b': ('C18', 'Square::new(64) accepted (> instead of >=)'),
+ 'C19-b': ('C19', '(pending)'),
+ 'C20-b': ('C20', 'render_flipped blanks rank rows when the lower ranks are empty (orientation assumption of an endgame shortcut)'),
 }
 for sid, (prop, needs) in NEEDS.items():
     d = f'/verif/seeded/{sid}'
